@@ -257,6 +257,21 @@ func (k c10) random(c *rt.Ctx) {
 		k.judgeField(c, gen.Call("len", gen.IndexS(gen.IndexS(gen.Call("json", gen.Str(c10JSON[2])), "o"), "z")), []refstore.Pair{{K: "a", V: "b"}}, "len", "const")
 		doc := c10JSON[r.Intn(len(c10JSON))]
 		k.judgeField(c, mk(gen.Call("json", gen.Str(doc))), []refstore.Pair{{K: "a", V: "b"}, {K: "c", V: "d"}}, "json", "const")
+		// several documents in one statement: each json() call parses its own argument
+		y := func(doc *gen.Node) *gen.Node { return gen.IndexS(gen.Call("json", doc), "y") }
+		constDoc := gen.Str(`{"y":"const","x":0}`)
+		twoDocs := []refstore.Pair{{K: `{"y":"k1"}`, V: `{"x":1,"y":"s"}`}, {K: `{"y":"k2","x":5}`, V: `{"x":"","y":"t","list":[7]}`}, {K: `{"y":""}`, V: `{"y":"u"}`}}
+		switch r.Intn(4) {
+		case 0:
+			k.judgeField(c, gen.Call("join", gen.Str("/"), y(gen.Value()), y(constDoc)), twoDocs, "json", "two-documents")
+		case 1:
+			k.judgeField(c, gen.Call("join", gen.Str("/"), y(constDoc), y(gen.Value())), twoDocs, "json", "two-documents")
+		case 2:
+			k.judgeField(c, gen.Call("join", gen.Str("/"), y(gen.Value()), y(gen.Key())), twoDocs, "json", "two-documents")
+		default:
+			k.judgeField(c, gen.Bin("+", gen.Bin("+", y(gen.Key()), gen.Str("<")), y(gen.Value())), twoDocs, "json", "two-documents")
+		}
+		c.Rec.Inc("two_json_documents")
 	case 5: // numbers through str / strlen / float / int
 		x := intArg(rowdep)
 		k.judgeField(c, gen.Call("str", x), numStore, "str", cell)
